@@ -361,8 +361,8 @@ class Call:
 
     def eval_new_data_offset(self, data_mask):
         if self._intermediate_data.kind == "constant":
-            # Return value passed as the argument
-            result = np.ones(len(data_mask.index)) * self.call.args[0].value
+            # Return value passed as the argument, which can be an expression like '-2' or '1 + 1'
+            result = np.ones(len(data_mask.index)) * self.call.args[0].eval(data_mask, self.env)
         else:
             # This works both for LazyVariable (offset(x)) and LazyCall (offset(np.log(x)))
             offset = self.call.eval(data_mask, self.env)  # returns instance of Offset
@@ -373,13 +373,13 @@ class Call:
         return result
 
     def eval_new_data_proportion(self, data_mask):
+        # The trials are the second argument, passed by position or by name. It can be a number,
+        # a variable, or an expression, so it's evaluated with the new data.
+        trials = self.call.args[1] if len(self.call.args) > 1 else self.call.kwargs["trials"]
+        values = trials.eval(data_mask, self.env)
         if self._intermediate_data.trials_type == "constant":
-            # Return value passed in the second component
-            result = np.ones(len(data_mask.index)) * self.call.args[1].value
+            result = np.ones(len(data_mask.index)) * values
         else:
-            # Extract name of the second component
-            name = self.call.args[1].name
-            values = data_mask[name]
             if isinstance(values, pd.Series):
                 values = values.values
             result = values
